@@ -3,6 +3,7 @@ import Amgcl.Proofs.SolverBiCGStab
 import Amgcl.Proofs.SolverRichardson
 import Amgcl.Model.SolverPreonly
 import Amgcl.Proofs.SolverGMRESExact
+import Amgcl.Proofs.SolverGMRESArnoldi
 import Mathlib.Algebra.Order.Field.Rat
 /-!
 # C05 — each Krylov method produces its defining iterates  (CG, BiCGStab, Richardson, preonly)
@@ -286,5 +287,90 @@ example : ∃ x w, FGMRES.solve fgPrm stdIp sqrt₀ 0 A₀ P₀ (FGMRES.Work.fre
   · cases h
 
 end nonvacuous2
+
+/-! ## The Arnoldi process of GMRES as coded (modified Gram–Schmidt, `gmres.hpp:208-225`)
+
+`IpOK ip n`: the inner product is symmetric and linear in its first argument on vectors of length `n` (in the form the
+code applies it, through `axpby`); the backend's inner product has these properties in every field (`stdIp_ipOK`).
+`Orthonormal ip n v j`: `v[0..j]` have length `n` and `⟨v_a, v_b⟩ = δ_ab`. -/
+section arnoldi
+variable {K : Type} [Field K] [DecidableEq K] [LT K] [DecidableLT K]
+
+/-- **one Arnoldi step**: after `orth` (Gram–Schmidt against `v[0..j]`, `H(j+1,j) = ‖w‖`, `v_new = w/‖w‖`) the new
+vector is orthogonal to all previous ones — for ANY function `sqrt`, breakdown or not —, has unit length when the
+root is exact on `⟨w,w⟩` and `H(j+1,j) ≠ 0`, and the input vector is reproduced by column `j` of `H`:
+`v_in = Σ_{k ≤ j} H(k,j)·v_k + H(j+1,j)·v_new` (entrywise; no root hypothesis). -/
+theorem gmres_arnoldi_step (ip : Vec K → Vec K → K) (sqrt : K → K) (n : Nat) (hip : IpOK ip n) (v : FArr (Vec K))
+    (j : Nat) (H : FArr2 K) (vnew : Vec K) (hv : Orthonormal ip n v j) (hn : vnew.size = n) :
+    (∀ i, i ≤ j → ip (orth ip sqrt v j H vnew).2 (v.get i) = 0) ∧
+    ((orth ip sqrt v j H vnew).1.get (j + 1) j ≠ 0 →
+      (sqrt (ip (mgs ip v j H vnew).2 (mgs ip v j H vnew).2) * sqrt (ip (mgs ip v j H vnew).2 (mgs ip v j H vnew).2)
+          = ip (mgs ip v j H vnew).2 (mgs ip v j H vnew).2 →
+        ip (orth ip sqrt v j H vnew).2 (orth ip sqrt v j H vnew).2 = 1) ∧
+      ∀ t, t < n → vnew.getD t 0
+        = (∑ k ∈ Finset.range (j + 1), (orth ip sqrt v j H vnew).1.get k j * (v.get k).getD t 0)
+          + (orth ip sqrt v j H vnew).1.get (j + 1) j * (orth ip sqrt v j H vnew).2.getD t 0) :=
+  ⟨fun i hi => orth_orthogonal ip sqrt n hip v j H vnew hv hn i hi,
+   fun hne => ⟨fun hroot => orth_normalised ip sqrt n hip v j H vnew hv hn hroot hne,
+               fun t ht => orth_arnoldi ip sqrt n hip v j H vnew hv hn hne t ht⟩⟩
+
+/-- **`gmres_arnoldi_partial`**: for every restart cycle of GMRES (both preconditioning sides; `A' u = A P u` resp.
+`P A u`), started from a state at the `break` test (`norm_r = ‖r‖ ≠ 0`, root exact on `⟨r,r⟩`): when the inner loop
+has ended after `j` steps without breakdown (`H̃(i+1,i) ≠ 0` and the root exact on `⟨w_i,w_i⟩` for `i < j`, where `H̃`
+is the UNROTATED Hessenberg matrix and `w_i` the orthogonalised vector — GMRES overwrites `H` by the Givens
+rotations, so both are carried as ghost state `Ghost` next to the model's loop, `innerG_fst`), the basis
+`v[0..j]` is orthonormal and `A' v_i = Σ_{k ≤ i+1} H̃(k,i)·v_k` for every `i < j`; and `H̃(i+1,i) = ‖w_i‖` always.
+
+PARTIAL with respect to the plan's statement: "the Givens-reduced `|s_{j+1}|` equals the least-squares residual" (and
+hence the minimisation property and residual monotonicity) is NOT proved; it is decided by the labelled
+double-precision least-squares test of the harness only. -/
+theorem gmres_arnoldi_partial (prm : GMRES.Params K) (ip : Vec K → Vec K → K) (sqrt : K → K) (A : CRS K)
+    (P : Vec K → Vec K) (epsT : K) (st : GMRES.St K) (g0 : GMRES.Ghost K) (n : Nat) (hip : IpOK ip n)
+    (hA : ∀ u : Vec K, (GMRES.Aop prm.pside P A u).size = n) (hr : st.w.r.size = n)
+    (hnr : st.normR = nrmA ip sqrt st.w.r)
+    (hroot0 : sqrt (ip st.w.r st.w.r) * sqrt (ip st.w.r st.w.r) = ip st.w.r st.w.r) (hne0 : st.normR ≠ 0) :
+    (∀ i, i < (GMRES.inner prm ip sqrt A P epsT st).j →
+      (GMRES.innerG prm ip sqrt A P epsT st g0).2.Ht.get (i + 1) i
+        = nrmA ip sqrt ((GMRES.innerG prm ip sqrt A P epsT st g0).2.W.get i)) ∧
+    (GMRES.NoBreakdown ip sqrt (GMRES.innerG prm ip sqrt A P epsT st g0).2 (GMRES.inner prm ip sqrt A P epsT st).j →
+      Orthonormal ip n (GMRES.inner prm ip sqrt A P epsT st).w.v (GMRES.inner prm ip sqrt A P epsT st).j ∧
+      ∀ i, i < (GMRES.inner prm ip sqrt A P epsT st).j → ∀ τ, τ < n →
+        (GMRES.Aop prm.pside P A ((GMRES.inner prm ip sqrt A P epsT st).w.v.get i)).getD τ 0
+          = ∑ k ∈ Finset.range (i + 2), (GMRES.innerG prm ip sqrt A P epsT st g0).2.Ht.get k i
+              * ((GMRES.inner prm ip sqrt A P epsT st).w.v.get k).getD τ 0) :=
+  GMRES.inner_arnoldi prm ip sqrt A P epsT st g0 n hip hA hr hnr hroot0 hne0
+
+/-- the hypotheses on the inner product hold for the backend's inner product, in every field -/
+theorem std_inner_product_ok (n : Nat) : IpOK (stdIp : Vec K → Vec K → K) n := stdIp_ipOK n
+
+end arnoldi
+
+/-! non-vacuity of `gmres_arnoldi_partial` over `ℚ` with the executable `rsqrt` and the backend inner product:
+`A = [[1,0],[3,1]]`, `f = (2,0)`, `x₀ = 0`, `M = 1` (`r = (2,0)`, `v₀ = (1,0)`, `A v₀ = (1,3)`, `H̃(0,0) = 1`,
+`w₀ = (0,3)`, `H̃(1,0) = 3`: all roots exact, no breakdown) -/
+section nonvacuous3
+
+private def A₂ : CRS ℚ := ⟨2, #[[(0, 1)], [(0, 3), (1, 1)]]⟩
+private def prm₂ : GMRES.Params ℚ :=
+  { maxiter := 5, tol := 0, abstol := 0, nsSearch := false, M := 1, pside := .right }
+private def st₂ : GMRES.St ℚ := GMRES.init prm₂ stdIp Amgcl.rsqrt A₂ id (GMRES.Work.fresh 2) #[2, 0] #[0, 0]
+private def g₂ : GMRES.Ghost ℚ := ⟨.const 0, .const #[]⟩
+
+example :
+    Orthonormal stdIp 2 (GMRES.inner prm₂ stdIp Amgcl.rsqrt A₂ id 0 st₂).w.v
+      (GMRES.inner prm₂ stdIp Amgcl.rsqrt A₂ id 0 st₂).j ∧
+    ∀ i, i < (GMRES.inner prm₂ stdIp Amgcl.rsqrt A₂ id 0 st₂).j → ∀ τ, τ < 2 →
+      (GMRES.Aop .right id A₂ ((GMRES.inner prm₂ stdIp Amgcl.rsqrt A₂ id 0 st₂).w.v.get i)).getD τ 0
+        = ∑ k ∈ Finset.range (i + 2), (GMRES.innerG prm₂ stdIp Amgcl.rsqrt A₂ id 0 st₂ g₂).2.Ht.get k i
+            * ((GMRES.inner prm₂ stdIp Amgcl.rsqrt A₂ id 0 st₂).w.v.get k).getD τ 0 := by
+  have hj : (GMRES.inner prm₂ stdIp Amgcl.rsqrt A₂ id 0 st₂).j = 1 := by decide +kernel
+  have hnb : GMRES.NoBreakdown stdIp Amgcl.rsqrt (GMRES.innerG prm₂ stdIp Amgcl.rsqrt A₂ id 0 st₂ g₂).2
+      (GMRES.inner prm₂ stdIp Amgcl.rsqrt A₂ id 0 st₂).j := by
+    rw [hj]; unfold GMRES.NoBreakdown; decide +kernel
+  exact (gmres_arnoldi_partial prm₂ stdIp Amgcl.rsqrt A₂ id 0 st₂ g₂ 2 (std_inner_product_ok 2)
+    (GMRES.Aop_size_right id A₂) (by decide +kernel) (by decide +kernel) (by decide +kernel)
+    (by decide +kernel)).2 hnb
+
+end nonvacuous3
 
 end Amgcl.C05
